@@ -337,9 +337,15 @@ def run_impl(case):
             idx = c.column_index
             if not isinstance(idx, int) or idx < 0 or idx >= len(names) or names[idx] != nm or r[idx] is not c:
                 prob.append("name-lookup-not-in-its-slot")
-        nf = len(str(r).split("\t"))
+        text = str(r)
+        nf = len(text.split("\t"))
         if nf != max(len(r), 1):
             prob.append("render-field-count")
+        else:
+            # the rendering has one field per position: field i is what position i holds
+            want = [("None" if r[i] is None else str(r[i])) for i in range(len(r))]
+            if len(r) and all("\t" not in w for w in want) and text.split("\t") != want:
+                prob.append("render-field-is-not-its-position")
         try:
             r.validate()
         except AssertionError:
